@@ -19,7 +19,7 @@ RULE = ('logical files from vlib.model.gen_file and vlib.daqmx.gen_daqmx; non-tr
         'distinct = per-segment signatures with the byte-order vector')
 ASSUMPTIONS = ['the toc mask itself is always little-endian (NI format description)']
 REQUIRED = ['pairs_compared', 'big_endian_segments_with_data', 'mixed_order_files', 'daqmx_pairs', 'lazy_compared']
-N = {'quick': 4000, 'thorough': 50000}
+N = {'quick': 4000, 'thorough': 500000}
 
 
 def gen_cases(tier, seed):
